@@ -302,6 +302,22 @@ theorem list_setidx_no_slot_item_irrelevant (E : Env) (f : FieldSpec) (xs : List
     (h : resolveIdx xs.length i = none) : lstep E f xs (.setIdx i v) = lstep E f xs (.setIdx i w) := by
   rw [list_setidx_no_slot E f xs i v h, list_setidx_no_slot E f xs i w h]
 
+/-- **The indices that name an item are exactly `-len … len-1`**: one past the end and one before the start name none (the two
+    edges an "off by one" in the early index test would get wrong — seeded change C06-r12-1). -/
+theorem resolveIdx_some_iff (len : Nat) (i : Int) : (resolveIdx len i).isSome = true ↔ (-(len : Int) ≤ i ∧ i < len) := by
+  unfold resolveIdx
+  simp only
+  split <;> split <;> simp <;> omega
+
+theorem resolveIdx_at_len (len : Nat) : resolveIdx len len = none ∧ resolveIdx len (-(len : Int) - 1) = none := by
+  constructor
+  · cases h : resolveIdx len len with
+    | none => rfl
+    | some p => have := (resolveIdx_some_iff len len).mp (by simp [h]); omega
+  · cases h : resolveIdx len (-(len : Int) - 1) with
+    | none => rfl
+    | some p => have := (resolveIdx_some_iff len (-(len : Int) - 1)).mp (by simp [h]); omega
+
 /-- non-vacuity: index 5 names no item of a list of two -/
 example : resolveIdx ([Val.int 1, Val.int 2] : List Val).length 5 = none := by decide
 
